@@ -62,12 +62,17 @@ impl Engine for OwnEngine {
         }
         gen_source(rng, &mut l, true);
         let n = rng.range(8, if tier == Tier::Thorough { 60 } else { 28 });
+        // (type, id) pairs requested so far: removals and reloads aim at entries that probably exist
+        let mut seen: Vec<(&'static str, &'static str)> = vec![];
         for _ in 0..n {
-            let id = *rng.pick(IDS);
-            let h = hexs(id);
-            let lt = *rng.pick(TRACKED_LOAD);
+            let mut id = *rng.pick(IDS);
+            let mut lt = *rng.pick(TRACKED_LOAD);
             let it = *rng.pick(TRACKED_INS);
-            let next = match rng.below(20) {
+            let roll = rng.below(20);
+            if roll >= 11 && !seen.is_empty() && rng.below(10) < 7 { let (t, i) = *rng.pick(&seen); lt = t; id = i; }
+            let h = hexs(id);
+            if roll <= 5 { seen.push((lt, id)); } else if (8..=10).contains(&roll) { seen.push((it, id)); }
+            let next = match roll {
                 0..=5 => format!("load {lt} {h}"),
                 6..=7 => format!("owned {lt} {h}"),
                 8..=10 => format!("goi {it} {h} {}", rng.below(1000)),
@@ -111,6 +116,8 @@ impl Engine for OwnEngine {
                 continue;
             }
             check_ledger(&wx, rec, line);
+            // the model's ghost ledger (created / gone, tracked types) against the real one, after every operation
+            if w[0] != "ledger" && !wx.unspecified { let lo = wx.op("ledger"); rec.op("ledger".to_string(), lo); }
             if wx.unspecified { rec.stat("truncated/new-asset-loaded-during-a-pass"); break; }
         }
         // the cache is dropped: everything that is still stored is dropped, exactly once
